@@ -266,7 +266,7 @@ class Cmp(object):
             self._ob(False, '%s: real expected, got %s' % (where, type(b).__name__)); return
         be = sym.lift_real(b)
         if exact:
-            self._ob(be == sym.lift_real(a), '%s: identical after a second cycle' % where); return
+            self._ob(be == sym.lift_real(a), '%s: identical (no rounding left, nothing left over)' % where); return
         av = a if isinstance(a, SReal) else SReal(sym.lift_real(a))
         x = (av / scale).e
         want = SReal(strs.Rfunc(kind, p)(x)) * scale
@@ -324,7 +324,16 @@ def shape_tag(s):
         '.names' if s.get('symnames') else '', '.gdc' if s.get('gdc') else '') + ('.attop' if s.get('attop') else '') + (
             '.hist-' + '>'.join({None: 'none', 'layer_column': 'lc', 'dmplex': 'dm'}[o] for o in s['order_history']) if s.get('order_history') else '') + (
             '.der-' + '+'.join('%s%s' % (op[0], ''.join(re.sub(r'[^0-9A-Za-z]', '', str(a)) for a in op[1:])) for op in s['derive']) if s.get('derive') else '') + (
-            '.edit-' + '+'.join(e if isinstance(e, str) else '%s%s' % (e[0], ''.join(re.sub(r'[^0-9A-Za-z]', '', str(a)) for a in e[1:])) for e in s['edit']) if s.get('edit') else '')
+            '.edit-' + '+'.join(e if isinstance(e, str) else '%s%s' % (e[0], ''.join(re.sub(r'[^0-9A-Za-z]', '', str(a)) for a in e[1:])) for e in s['edit']) if s.get('edit') else '') + (
+            '' if not s.get('reuse') else '.reuse-self' if s['reuse'] == 'self' else '.reuse-' + reuse_tag(s['reuse']))
+
+
+def reuse_tag(r):
+    nx, ny, nz = r.get('size', (3, 1, 3))
+    return 'r%dx%dL%d.c%d.a%d.%s.%s%s%s%s%s%s' % (nx, ny, nz, r.get('convention', 0), r.get('atmos', 0), 'ft' if r.get('unit') else 'm',
+        {None: 'o-', 'layer_column': 'olc', 'dmplex': 'odm'}[r.get('block_order')], '.gdc' if r.get('gdc') else '',
+        '' if r.get('cntype') is None else '.cn%d' % r['cntype'], '.w%d' % r['wells'] if r.get('wells') else '', '.surf' if r.get('surfaces') else '',
+        '.file' if r.get('via_file') else '')
 
 
 def norm_label(label):
@@ -468,6 +477,28 @@ def task_shape(shape):
                 r, m = c.solve(z3.Not(f))
                 if r == 'sat':
                     c.note('first differing line %d: %r' % (n, f1[n])); break
+        if shape.get('reuse'):
+            # the file is read by an object that already holds a geometry - the one that wrote it
+            # (geo.write(f); geo.read(f)) or a different one: what it holds afterwards must be what a
+            # fresh object gets from the same file (every compared item identical, nothing left over
+            # from the previous content), and it must write the same file
+            W = 'reuse-self ' if shape['reuse'] == 'self' else 'reuse-other '
+            try:
+                ok, h_ = stage(lambda: MODEL.prior(prov, M, np_, shape, geo), W + 'setup')
+            except MODEL.Rejected as ex:
+                return rejected(ex, 'checked-until-prior-rejected')
+            if not ok: return 'exception'
+            ok, _ = stage(lambda: h_.read('g1.dat'), W + 'read')
+            if not ok: return 'exception'
+            MODEL.compare(cmp, g2, h_, exact=True, where=W)
+            flush()
+            ok, _ = stage(lambda: h_.write('gr.dat'), W + 'write')
+            if not ok: return 'exception'
+            fr = fs.files['gr.dat']
+            ob(len(f2) == len(fr), W + 'rewrite-length: the re-used object writes the same number of lines as a fresh one (%d -> %d)' % (len(f2), len(fr)))
+            wholer, _ = files_equal(f2, fr)
+            ob(wholer, W + 'rewrite: the re-used object writes the same file as a fresh one, cell for cell')
+            flush()
         if shape.get('edit'):
             # the re-read geometry is changed through the API (new header values, block order,
             # a layer renamed to itself, a new surface) and written again: the new file must
@@ -516,18 +547,20 @@ def shapes(tier):
         if kw.get('block_order') == 'dmplex' and kw['topo'] == 'mix': kw['topo'] = 'mixtq'   # no 10-node cells in the dmplex order
         S.append(kw)
     if tier == 'quick':
-        add(topo='r2x1', nlayers=1, convention=0, atmos=0)
+        add(topo='r2x1', nlayers=1, convention=0, atmos=0,
+            reuse=dict(block_order='dmplex', gdc=True, cntype=0, wells=1, via_file=True))
         add(topo='r2x2', nlayers=2, layers='low', convention=1, atmos=1, block_order='layer_column', surfaces='one', wells=[2], ncentres=1, symnames=True)
         add(topo='r3x2', nlayers=3, convention=2, atmos=2, block_order='dmplex', surfaces='all', wells=[3, 2], symnames=True, gdc=True)
         add(topo='mix', nlayers=2, convention=3, atmos=0, surfaces='one', wells=[2], ncentres=1, symnames=True, case='u')
         add(topo='mixtq', nlayers=3, layers='low', convention=0, atmos=1, block_order='dmplex', surfaces='all', ncentres=1, symnames=True, node_pattern='LLL', column_pattern=' LL')
-        add(topo='r2x1', nlayers=2, convention=0, atmos=0, unit='FEET ', surfaces='one', wells=[2], ncentres=1)
+        add(topo='r2x1', nlayers=2, convention=0, atmos=0, unit='FEET ', surfaces='one', wells=[2], ncentres=1, reuse='self')
         add(topo='r2x2', nlayers=3, convention=3, atmos=2, unit='FEET ', block_order='layer_column', surfaces='all', symnames=True)
         add(topo='r2x1', nlayers=2, layers='zeromid', convention=0, atmos=0)
         add(topo='r2x1', nlayers=3, layers='zeromid2', convention=1, atmos=1, surfaces='one')
-        add(topo='r2x1', nlayers=2, layers='zerotop', convention=0, atmos=2, surfaces='one', surface_above=True, wells=[2])
+        add(topo='r2x1', nlayers=2, layers='zerotop', convention=0, atmos=2, surfaces='one', surface_above=True, wells=[2],
+            reuse=dict(size=(2, 2, 2), convention=2, atmos=0, unit='FEET ', block_order='layer_column', wells=2, surfaces=True))
         add(topo='r3x2', nlayers=2, convention=0, atmos=0, centres='free', surfaces='all', wells=[3, 3], gdc=True)
-        add(topo='mix', nlayers=1, convention=1, atmos=2, block_order='layer_column', wells=[2, 3], symnames=True)
+        add(topo='mix', nlayers=1, convention=1, atmos=2, block_order='layer_column', wells=[2, 3], symnames=True, reuse='self')
         # explicit surfaces exactly at / around ground level; block order changed by assignment before writing
         add(topo='r2x1', nlayers=2, convention=0, atmos=0, surfaces='all', attop=True)
         add(topo='r2x2', nlayers=2, layers='low', convention=3, atmos=1, unit='FEET ', surfaces='one', attop=True, block_order=None, order_history=['dmplex', None])
@@ -550,13 +583,21 @@ def shapes(tier):
     lays = ['high', 'low', 'zerotop', 'high', 'low']
     pats = {0: [(' LL', 'LLL'), ('LLL', ' LL'), ('  L', '  L')], 3: [('LLL', '  L'), (' LL', 'LLL'), ('  L', ' LL')],
             1: [('DD', 'DD'), (' D', 'DD'), ('DD', ' D')], 2: [(' DD', 'DDD'), ('DDD', ' DD'), ('  D', '  D')]}
+    # objects that already hold a geometry when they read the file: the writer itself, or another geometry
+    priors = [dict(block_order='dmplex', gdc=True, cntype=0, wells=1, via_file=True),
+              dict(size=(2, 2, 2), convention=2, atmos=0, unit='FEET ', block_order='layer_column', wells=2, surfaces=True),
+              dict(size=(1, 2, 1), convention=1, atmos=1, gdc=True, wells=2, case='u'),
+              dict(size=(2, 1, 2), convention=3, atmos=2, unit='FEET ', block_order='dmplex', surfaces=True, via_file=True),
+              dict(size=(2, 1, 1), convention=0, atmos=0, wells=1)]
+    def reuse_of(k):
+        return 'self' if k % 4 == 0 else priors[(k // 4) % len(priors)] if k % 4 == 2 else None
     n = 0
     def one(topo, conv, atm, unit, order):
         pn, pc_ = pats[conv][(n // 2) % 3]
         add(topo=topo, nlayers=1 + (n % 3), layers=lays[(n // 3) % 5], convention=conv, atmos=atm, unit=unit, block_order=order,
             surfaces=surfs[n % 3], surface_above=(n % 7 == 0), wells=wells[(n + conv) % 5], ncentres=(n // 2) % 2,
             centres='free' if n % 5 == 0 else 'mid', symnames=(n % 4 != 1), node_pattern=pn, column_pattern=pc_,
-            gdc=(n % 3 == 0), case='u' if n % 4 == 2 else None, cycles=3 if n % 2 == 0 else 2)
+            gdc=(n % 3 == 0), case='u' if n % 4 == 2 else None, cycles=3 if n % 2 == 0 else 2, reuse=reuse_of(n))
     # the full product of the header options, the topology rotating through all five
     for conv in range(4):
         for atm in range(3):
@@ -575,7 +616,7 @@ def shapes(tier):
         for o2 in orders:
             k += 1
             add(topo=['r2x1', 'mixtq', 'r2x2'][k % 3], nlayers=1 + k % 2, convention=k % 4, atmos=k % 3, unit=['', 'FEET '][k % 2],
-                block_order=o2, order_history=[o1, o2], surfaces=['one', 'all'][k % 2], attop=True, cycles=2)
+                block_order=o2, order_history=[o1, o2], surfaces=['one', 'all'][k % 2], attop=True, cycles=2, reuse=reuse_of(2 * k))
     add(topo='r2x1', nlayers=2, convention=0, atmos=1, block_order=None, order_history=[None, 'dmplex', 'layer_column', None], cycles=2)
     add(topo='mixtq', nlayers=2, convention=3, atmos=0, block_order='layer_column', order_history=['dmplex', None, 'layer_column'], cycles=2)
     # explicit surfaces exactly at / around ground level on every topology
@@ -615,7 +656,8 @@ def shapes(tier):
         order = [None, 'layer_column', 'dmplex'][k % 3]
         if topo == 'mix' and order == 'dmplex': order = 'layer_column'
         kw = dict(topo=topo, nlayers=nl, layers=['high', 'low'][k % 2], convention=k % 4, atmos=(k // 2) % 3, unit=['', 'FEET '][(k // 3) % 2], block_order=order,
-                  surfaces=surfs[(k + 1) % 3], wells=wells[k % 5], symnames=(k % 2 == 0), gdc=(k % 4 == 1), case='u' if k % 5 == 3 else None, derive=ops, cycles=3 if k % 4 == 0 else 2)
+                  surfaces=surfs[(k + 1) % 3], wells=wells[k % 5], symnames=(k % 2 == 0), gdc=(k % 4 == 1), case='u' if k % 5 == 3 else None, derive=ops, cycles=3 if k % 4 == 0 else 2,
+                  reuse=reuse_of(2 * k + 4) if k % 3 != 1 else None)
         if k % 3 == 1:
             ed = edits[(k // 3) % len(edits)]
             if topo == 'mix': ed = [e for e in ed if e != ['block_order', 'dmplex']]
@@ -630,7 +672,8 @@ def shapes(tier):
     for conv in (0, 1):
         for nl, lk in ((1, 'zeromid'), (2, 'zeromid'), (2, 'zeromid2'), (3, 'zeromid2')):
             for unit in ('', 'FEET '):
-                add(topo='r2x1', nlayers=nl, layers=lk, convention=conv, atmos=conv, unit=unit, surfaces='none' if nl == 1 else 'one')
+                add(topo='r2x1', nlayers=nl, layers=lk, convention=conv, atmos=conv, unit=unit, surfaces='none' if nl == 1 else 'one',
+                    reuse='self' if (nl + conv) % 2 == 0 and unit else None)
     return S
 
 
@@ -645,6 +688,8 @@ def run(tier, seed, rep):
         'symbolic: every node coordinate (base +- %g), specified centre of 0/1 columns (base +- %g), every layer bottom (base +- %g; layer 0 has bottom = centre = top), layer centres (midpoints as add_layers() makes them, or free values strictly inside the layer), surfaces on 0 / 1 / all columns (anywhere inside a chosen layer except within %g of its boundaries, or up to 50 above ground level; attop shapes: one explicit surface EXACTLY at ground level and one anywhere within 1 of it); block order created as one value and re-assigned before writing (every ordered pair of None/layer_column/dmplex), 0..2 wells x 2..3 track points (x, y within 100 of the first node, z within 1000 of ground level), atmosphere_volume and atmosphere_connection (any real with 1e-90 <= |v| <= 1e90 or 0), gdcx, gdcy (unset or in [-1, 1]), permeability_angle (in [-360, 360]); one node name and one column name with symbolic characters (3 cells, right-justified, upper or lower case letters; digits under conventions 1 and 2), different from every other name' % (MODEL.DELTA_XY, MODEL.DELTA_XY, MODEL.DELTA_Z, MODEL.MARGIN),
         'base coordinates include 7-digit map-grid values (2776000, 6282000) and a row at the negative 10-column limit (-999997 +- 1: values that do not fit 10 columns are excluded by the fit condition)',
         'layer centres that print as 0.00: decided in dedicated shapes (layers zeromid / zeromid2: a layer whose centre lies within %g of elevation 0) with an exact decimal rounding model for the layer elevations (witnesses keep 1/100 of a unit in the last place away from ties); in all other shapes the layer centres are at least 7 away from 0' % MODEL.DELTA_Z]
+    rep.bounds += [
+        'reading into a USED object (%d shapes): the file is also read by mulgrid.read() of an object that already holds a geometry - the object that wrote the file (geo.write(f); geo.read(f)) or another geometry (rectangular 1..3 x 1..2 columns, 1..3 layers, any convention / atmosphere type / unit / block order, gdcx, gdcy, atmosphere sizes and permeability angle symbolic, cntype 0, a surface, 0..2 wells one of which has the name of a well in the file; built in memory or itself read from a file); afterwards it must hold exactly what a fresh mulgrid(f) holds (every compared item identical) and write the same file' % sum(1 for s_ in sh if s_.get('reuse'))]
     rep.outside += [
         'values in %f fields that print as -0.00 (IEEE negative zero: the file text is reproduced by the real code, but the sign of zero does not exist in real arithmetic)',
         'a surface within %g of a layer boundary (rounding to 2 decimals can move it across the boundary, which changes the derived block list: inherent to the 2-decimal format)' % MODEL.MARGIN,
